@@ -35,6 +35,12 @@ fn kind_of(s: &str) -> ErrorKind {
         "wb" => ErrorKind::WouldBlock,
         "reset" => ErrorKind::ConnectionReset,
         "intr" => ErrorKind::Interrupted,
+        // further kinds: all are "other hard errors" for the model; the library must not treat them specially
+        "ueof" => ErrorKind::UnexpectedEof,
+        "aborted" => ErrorKind::ConnectionAborted,
+        "timedout" => ErrorKind::TimedOut,
+        "notconn" => ErrorKind::NotConnected,
+        "wzero" => ErrorKind::WriteZero,
         _ => ErrorKind::BrokenPipe,
     }
 }
